@@ -1047,7 +1047,9 @@ def run(ctx):
     r2_predict(ctx, repo, ens)
     r3(ctx, repo)
     r4(ctx, repo)
-    ctx.floor("R1", 30)
-    ctx.floor("R2", 25)
-    ctx.floor("R3", 18)
-    ctx.floor("R4", 18)
+    # floors: a whole family of instances vanishing fails closed; a refactoring that merges a few
+    # instances (e.g. one dynamic aggregator call instead of four branches) does not
+    ctx.floor("R1", 24)
+    ctx.floor("R2", 18)
+    ctx.floor("R3", 14)
+    ctx.floor("R4", 14)
